@@ -707,6 +707,9 @@ func init() {
 		return v.(*Ptr).obj.val.(*NativeV).v.(*regexp.Regexp)
 	}
 	intrinsics["(*regexp.Regexp).ReplaceAllString"] = func(e *Exec, args []Value, st string) Value {
+		if _, ok := concStr(args[1]); !ok {
+			return e.regexpFilterSym(reOf(args[0]), args[1], mustStr(args[2], "regexp replacement"))
+		}
 		return StrV(reOf(args[0]).ReplaceAllString(mustStr(args[1], "regexp"), mustStr(args[2], "regexp")))
 	}
 	intrinsics["(*regexp.Regexp).MatchString"] = func(e *Exec, args []Value, st string) Value {
